@@ -117,9 +117,14 @@ def check(ctx):
            model.method("BaseField", "_ref_path"), model.method("Config", "_ref_path"), model.method("ValidationError", "ref_path"),
            model.function("support", "is_value_defined"), model.function("support", "reset_value")]
     seps = {}
+    from engine.known_names import KNOWN_NAMES
+
+    def with_helpers(f):
+        """the function and the helpers it was split into (functions that are not part of the package's known surface)"""
+        return [f] + [h for h in an.reachable_fns([f]) if h is not f and h.name not in KNOWN_NAMES and h.node is not None]
     for f in fns:
         found = []
-        for x in ast.walk(f.node):
+        for x in (y for h in with_helpers(f) for y in ast.walk(h.node)):
             if isinstance(x, ast.Call) and isinstance(x.func, ast.Attribute) and x.func.attr in ("partition", "rpartition", "split", "rsplit") \
                     and x.args and isinstance(x.args[0], ast.Constant):
                 found.append((x.func.attr, x.args[0].value))
@@ -187,10 +192,28 @@ def check(ctx):
                    "the remainder of the path is resolved by the same operation on the nested object" if okr else
                    "%s.%s does not recurse with the remainder of the path" % (cname, nm))
     gaf = model.function("support", "get_all_fields")
-    pref = [x for x in ast.walk(gaf.node) if isinstance(x, ast.BinOp) and isinstance(x.op, ast.Add) and isinstance(x.left, ast.Name) and "prefix" in x.left.id]
-    keyed = any(isinstance(x, ast.Attribute) and x.attr == "_key" for x in ast.walk(gaf.node))
-    ctx.ob("enumeration.prefix", gaf, "prefix + key / prefix + subkey", len(pref) >= 2 and keyed,
-           "nested paths are prefixed with the nested schema's key" if len(pref) >= 2 and keyed else "get_all_fields does not prefix nested paths with the schema key")
+    # the enumerated path is <prefix> + key, where the prefix is built from the schema's own key and '.'; nested results are
+    # prefixed as well -- either on the way back (`prefix + subkey`) or by handing the prefix down to the recursive call
+    enum_fns = with_helpers(gaf)
+    pref, handed, keyed = [], [], False
+    for h in enum_fns:
+        def is_prefix(e, h=h):
+            if not isinstance(e, ast.Name):
+                return False
+            for k, pl in value_sources(h, e, None):
+                if k == "expr" and isinstance(pl, ast.AST) and any(isinstance(y, ast.Attribute) and y.attr == "_key" for y in ast.walk(pl)) \
+                        and any(isinstance(y, ast.Constant) and y.value == "." for y in ast.walk(pl)):
+                    return True
+            return False
+        keyed = keyed or any(isinstance(x, ast.Attribute) and x.attr == "_key" for x in ast.walk(h.node))
+        for x in ast.walk(h.node):
+            if isinstance(x, ast.BinOp) and isinstance(x.op, ast.Add) and is_prefix(x.left):
+                pref.append(x)
+            if isinstance(x, ast.Call) and isinstance(x.func, ast.Name) and x.func.id == h.name and any(is_prefix(a_) for a_ in x.args):
+                handed.append(x)
+    okp = keyed and (len(pref) >= 2 or (len(pref) >= 1 and bool(handed)))
+    ctx.ob("enumeration.prefix", gaf, "prefix + key / prefix + subkey", okp,
+           "nested paths are prefixed with the nested schema's key" if okp else "get_all_fields does not prefix nested paths with the schema key")
 
     # ---------------------------------------------------------------- C16.2 / C16.3 parser
     gp = model.function("support", "generate_argparse_parser")
@@ -236,6 +259,14 @@ def check(ctx):
                 srcs = value_sources(gp, e, node)
                 if len(srcs) == 1 and srcs[0][0] == "expr" and isinstance(srcs[0][1], (ast.Tuple, ast.List, ast.Set)):
                     e = srcs[0][1]
+            if isinstance(e, (ast.Name, ast.Attribute)):
+                # a module-level table: _VALUE_STORAGE_TYPES = (str, float, int)
+                try:
+                    cv = model.const_eval(gp.module, e)
+                except (ValueError, KeyError):
+                    cv = None
+                if isinstance(cv, (tuple, list)) and cv and all(hasattr(x, "kind") and hasattr(x, "name") for x in cv):
+                    return [str(x.name).split(".")[-1] for x in cv]
             els = e.elts if isinstance(e, (ast.Tuple, ast.List, ast.Set)) else [e]
             return [x.id if isinstance(x, ast.Name) else None for x in els]
 
@@ -324,6 +355,8 @@ def check(ctx):
         ctx.ob("override.ignore-guard", ov, n.ast, ignored, "ignored keys are never applied" if ignored else "the ignore list is not consulted", node=n)
         # key and value come from vars(args).items()
         a = n.ast.args if n.kind == "call" else []
+        if isinstance(n.ast, ast.Assign) and len(n.ast.targets) == 1 and isinstance(n.ast.targets[0], ast.Subscript):
+            a = [n.ast.targets[0].slice, n.ast.value]          # config[key] = value
         okv = len(a) == 2 and all(any(k == "iter" for k, _ in value_sources(ov, x, n)) for x in a)
         ctx.ob("override.key-value-from-args", ov, n.ast, okv, "writes the parsed (dest, value) pair unchanged" if okv else
                "the pair written is not the parsed (dest, value) pair", node=n)
